@@ -195,7 +195,12 @@ def _chunk_entry(arg):
     fn, pid, idx, nchunks, extra = arg
     sub = ChunkProbe(pid)
     sub.rng = random.Random(f'{seed()}:{pid}:chunk{idx}')
-    fn(sub, idx, nchunks, *extra)
+    try:
+        fn(sub, idx, nchunks, *extra)
+    except Exception as e:  # noqa  (e.g. the library raising inside an input generator)
+        import traceback
+        sub.violation('probe-chunk-aborted', 'probe', {'chunk': idx}, traceback.format_exc()[-1500:],
+                        'the chunk runs to completion')
     return (sub.evaluations, sub.nontrivial, sub.violations, sub.samples, sub.stats.counts)
 
 
